@@ -4,13 +4,17 @@ raise / async-with bodies that raise / disconnect, on the virtual network or ove
 
 scenario = {"api": 1|2, "mode": "virtual"|"loopback", "word": [action, ...], "seed": n}
 actions: connect, refused, enter, enter-refused, op-ok, op-raises, leave, body-raises, disconnect,
-         refused-while-connected (a connect() retried on a connected client is refused: nothing may change)
+         refused-while-connected (a connect() retried on a connected client is refused: nothing may change),
+         op-reset (the device resets the TCP session in the middle of an operation: the operation fails somehow, and the client
+         is still "connected" until somebody disconnects it; what that disconnect does is not judged, what a later connect does is)
 """
 from __future__ import annotations
 
 import asyncio
 import os
 import random
+import socket
+import struct
 from binascii import unhexlify
 
 from . import vnet
@@ -19,6 +23,7 @@ from .vnet import clk_ceil, clk_floor
 
 
 EOF_WAIT = [15.0]
+RESET = b"\x00reset"
 TIMEOUTS = [0]
 
 
@@ -59,6 +64,14 @@ class LifeRun:
                     break
                 self.log(ev="Write", b=list(data), clk=clk_ceil())
                 rep = b"" if conn["sent_eof"] else self._next_reply()
+                if rep == RESET:
+                    self.log(ev="Reset")
+                    conn["eof"] = False
+                    sock = writer.get_extra_info("socket")
+                    sock.setsockopt(socket.SOL_SOCKET, socket.SO_LINGER, struct.pack("ii", 1, 0))
+                    writer.transport.abort()          # linger 0 + close = RST
+                    conn["reset"] = True
+                    return
                 self.log(ev="Reply", b=list(rep), src="script")
                 if rep:
                     writer.write(rep)
@@ -70,16 +83,21 @@ class LifeRun:
             conn["eof"] = True
         finally:
             conn["closed"].set()
-            writer.close()
+            if not conn.get("reset"):
+                writer.close()
 
     def _virtual_on_write(self, conn, data):
         self.log(ev="Write", b=list(data), clk=clk_ceil())
         rep = b"" if conn.sent_eof else self._next_reply()
+        if rep == RESET:
+            self.log(ev="Reset")
+            conn.loop.call_soon(conn.reset)
+            return
         self.log(ev="Reply", b=list(rep), src="script")
         conn.loop.call_soon(conn.feed, rep)
 
     # ---------------- client side ----------------------------------------------------
-    async def _op(self, api, ok: bool):
+    async def _op(self, api, ok):
         t = self.scn["api"]
         rnd = self.rng
         login = bytes(rnd.randbytes(44))
@@ -88,10 +106,10 @@ class LifeRun:
             state = bytearray(rnd.randbytes(107))
             state[75] = rnd.randrange(2)
             state[89:101] = (1234).to_bytes(4, "little") * 3
-            self.script = [login, bytes(state)] if ok else [b""]
+            self.script = [RESET] if ok == "reset" else [login, bytes(state)] if ok else [b""]
         else:
             op = "stop"
-            self.script = [login, bytes(rnd.randbytes(56))] if ok else [b""]
+            self.script = [RESET] if ok == "reset" else [login, bytes(rnd.randbytes(56))] if ok else [b""]
         self.log(ev="Call", op=op, a={}, clk=clk_floor())
         res, exc = None, None
         try:
@@ -113,6 +131,17 @@ class LifeRun:
             self.log(ev="Ret", out="runtime", exc="RuntimeError", ok=False, r={})
         else:
             self.log(ev="Ret", out="raise", exc=type(exc).__name__, ok=False, r={})
+
+    def _nconn(self) -> int:
+        return len(self.net.conns) if self.mode == "virtual" else len(self.dev_conns)
+
+    def _eof_now(self) -> bool:
+        """Has the device, right now, seen the end of the stream on the newest connection? (no waiting: over real sockets a
+        "no" may be premature, which can only make the check miss something, never report something)"""
+        if self.mode == "virtual":
+            conns = self.net.conns
+            return bool(conns) and bool(conns[-1].closed_seen)
+        return bool(self.dev_conns) and bool(self.dev_conns[-1]["eof"])
 
     async def _eof_seen(self, nconn_before: int) -> bool:
         if self.mode == "virtual":
@@ -162,12 +191,18 @@ class LifeRun:
                         else:
                             server.close()        # stops listening at once (wait_closed would also wait for open connections)
                             await asyncio.sleep(0)
+                    n0 = self._nconn()
                     try:
                         if a in ("connect", "refused", "refused-while-connected"):
                             await self._b(api.connect())
                         else:
                             await self._b(api.__aenter__())
-                        self.log(ev="Connect", ok=True, exc="", flag=bool(api.connected))
+                        if self.mode == "loopback":          # the accept side runs a moment after the connect side
+                            for _ in range(200):
+                                if self._nconn() > n0:
+                                    break
+                                await asyncio.sleep(0.005)
+                        self.log(ev="Connect", ok=True, exc="", flag=bool(api.connected), newconn=self._nconn() > n0)
                     except OSError as x:
                         self.log(ev="Connect", ok=False, exc=type(x).__name__, flag=bool(api.connected))
                     if refuse:
@@ -179,6 +214,8 @@ class LifeRun:
                     await self._op(api, True)
                 elif a == "op-raises":
                     await self._op(api, False)
+                elif a == "op-reset":
+                    await self._op(api, "reset")
                 elif a in ("disconnect", "leave", "body-raises"):
                     n0 = len(self.dev_conns)
                     raised = False
@@ -197,7 +234,7 @@ class LifeRun:
                         raised = True
                     eof = await self._eof_seen(n0)
                     self.log(ev="Disc", how=a, raised=raised, flag=bool(api.connected), eof=eof)
-                self.log(ev="Flag", flag=bool(api.connected))
+                self.log(ev="Flag", flag=bool(api.connected), eofnow=self._eof_now())
         finally:
             try:
                 await self._b(api.disconnect())
